@@ -69,8 +69,10 @@ func (c *Ctx) c16FailuresTravel() {
 		fns = append(fns, f)
 	}
 	sortFuncs(fns)
+	c.rule("Y15", "in every function Fetch/Store can reach an error assigned to a variable is read before the variable is overwritten (the failure of one step — giving the package its final name — is not covered by the success of the next)", 150)
 	for _, f := range fns {
 		c.errDropRule("Y14", f)
+		c.errOverwrittenRule("Y15", f)
 	}
 	c.Extra["functions_reached_by_fetch_and_store"] = len(fns)
 }
